@@ -84,6 +84,9 @@ class CheckEnsureArgs(FuncRule):
         for contract in func.contracts:
             if contract.category != Category.ENSURE:
                 continue
+            if contract.inherited:
+                # reported where the contract is declared
+                continue
             yield from self._check(contract)
 
     def _check(self, contract: Contract) -> Iterator[Error]:
@@ -158,6 +161,9 @@ class CheckExamples(FuncRule):
     def __call__(self, func: Func, stubs: StubsManager | None = None) -> Iterator[Error]:
         for contract in func.contracts:
             if contract.category != Category.EXAMPLE:
+                continue
+            if contract.inherited:
+                # reported where the contract is declared
                 continue
             yield from self._check(func=func, contract=contract)
 
